@@ -10,10 +10,18 @@
     tessellator, the source list and the attributes lyon computed; the model `Reset.interpAll`,
     started from a junk buffer resized as `tessellate_impl` does, must reproduce every attribute bit
     for bit.  Answers `ok <nverts>` or `fail interp/model-vs-impl generic …`.
+  * `sweep_reuse:32`  `<ncalls> ( <rule 0/1> <orientation 0/1> <tolerance> <entry> <handle_ix 0/1>
+        <refuse k | 0> <dropped 0/1> <nsubs> (<npts> <closed 0/1> (<x> <y>)*)* )*` → per call
+        `call ok | call err <Debug> | call panic | …` followed by the complete emission sequence
+        (format of `Drive/Sweep.lean`): the sweep model on a USED object.  The model side runs
+        `Sweep.fillObj` over the whole history from `St.fresh`: every call is `tessellateFrom old c`
+        with `old` = the state the MODEL of the previous call left behind (pool, spans, edges,
+        queue; aborted runs included).  The implementation side is ONE real `FillTessellator`.
   The history families `hist_fill`, `hist_stroke` are oracle-only (real code against real code).
 -/
 import LyonVerif.Drive.Common
 import LyonVerif.Model.Tess.Reset
+import LyonVerif.Model.Tess.ResetSweep
 
 namespace Lyon.Drive.C08
 open Lyon Lyon.Drive Lyon.Mono Lyon.Reset
@@ -24,7 +32,7 @@ def rdSeq (v : Array String) : Nat → Nat → List (P α × Bool)
   | 0, _ => []
   | n+1, i => (rdP v i, rdNat v (i+2) == 1) :: rdSeq v n (i+3)
 
-def fTris (t : List Tri) : String :=
+def fTris (t : List Mono.Tri) : String :=
   unwords (toString t.length :: t.map (fun (a, b, c) => toString a ++ " " ++ toString b ++ " " ++ toString c))
 
 /-- middle vertices with their ids (1-based positions in the sequence) -/
@@ -105,9 +113,65 @@ def chkInterp (v : Array String) : String :=
   | b :: _ => "fail interp/model-vs-impl generic vertex " ++ toString b.2 ++ " model " ++ unwords (iresToks b.1.1) ++
       " impl " ++ unwords b.1.2
 
+/-! ### `sweep_reuse` -/
+
+section reuse
+open Lyon.Sweep Lyon.EQ
+variable [Sweep.Wide α]
+
+def rdPts (v : Array String) : Nat → Nat → List (P α)
+  | 0, _ => []
+  | n+1, i => rdP v i :: rdPts v n (i+2)
+
+/-- the sub-paths and the index after them -/
+def rdSubs (v : Array String) : Nat → Nat → List (SubPath α) × Nat
+  | 0, i => ([], i)
+  | n+1, i =>
+    let k := rdNat v i
+    let closed := rdNat v (i+1) == 1
+    let r := rdSubs v n (i + 2 + 2 * k)
+    ((rdPts v k (i+2), closed) :: r.1, r.2)
+
+def entryOf (s : String) : Entry :=
+  if s == "events" then .events else if s == "path" then .path else if s == "ids" then .ids
+  else if s == "polygon" then .polygon else .builder
+
+def rdCalls (v : Array String) : Nat → Nat → List (FillCall α)
+  | 0, _ => []
+  | n+1, i =>
+    let subs := rdSubs (α := α) v (rdNat v (i+7)) (i+8)
+    let k := rdNat v (i+5)
+    { entry := entryOf (v.getD (i+3) ""), rule := if rdNat v i == 0 then .evenOdd else .nonZero,
+      horizontal := rdNat v (i+1) == 1, tol := rd v (i+2), handleIx := rdNat v (i+4) == 1, subs := subs.1,
+      refuse := if k == 0 then none else some (k - 1), dropped := rdNat v (i+6) == 1 } :: rdCalls v n subs.2
+
+def fRec (r : P α × EQ.EdgeData α) : String :=
+  let d := r.2
+  let tail := [fx d.t0, fx d.t1, toString d.winding, toString d.fromId, toString d.toId]
+  if d.isEdge then unwords (["e", fp r.1, fp d.to] ++ tail) else unwords (["p", fp r.1] ++ tail)
+
+def fEmit : Emit α → String
+  | .vertex pos recs => unwords (["v", fp pos, toString recs.length] ++ recs.map fRec)
+  | .tri a b c => unwords ["t", toString a, toString b, toString c]
+
+def fEmission (r : Emission α) : String :=
+  match r.1 with
+  | some (.panic _) => "call panic"
+  | some (.unmodelled w) => "call unmodelled " ++ w
+  | some .fuel => "call fuel"
+  | some (.err k) => unwords (("call err " ++ k) :: r.2.toList.map fEmit)
+  | none => unwords ("call ok" :: r.2.toList.map fEmit)
+
+def sweepReuse (v : Array String) : String :=
+  let calls : List (FillCall α) := rdCalls v (rdNat v 0) 1
+  unwords ((fillObj.outputs (St.fresh : St α) calls).map fEmission)
+
+end reuse
+
 def families : List Family := [
   ⟨"mono_reuse", monoReuse (α := Float32), monoReuse (α := Float)⟩,
-  Family.plain "chk_interp" (chkInterp (α := Float32)) ]
+  Family.plain "chk_interp" (chkInterp (α := Float32)),
+  ⟨"sweep_reuse", sweepReuse (α := Float32), sweepReuse (α := Float32)⟩ ]
 
 end Lyon.Drive.C08
 
